@@ -586,3 +586,104 @@ func H_C05_TwoWriters() {
 	vrt.TraceBool("done", true)
 	vrt.Reach("writers/end")
 }
+
+// H_C05_FlushVsCompaction: the flusher installs the table of a rotated memstore while a compaction result is being
+// reflected (it needs the manager lock only, the reflection holds the database lock). The flush completes at any
+// synchronisation point of the compaction cycle at which the manager lock is free (while it is held the flusher
+// waits), or afterwards. Nothing may get lost: reads agree with the map right away, after the next rotation (when
+// the rotated-out memstore no longer answers) and after a restart.
+func H_C05_FlushVsCompaction() {
+	vrt.RandPromoteBudget(0)
+	h := vNewDBEnvU(vUniverse)
+	defer h.fs.Cleanup()
+	opts := []ExtraOption{MemstoreSizeBytes(math.MaxUint64), WriteBufferSizeBytes(64), ReadBufferSizeBytes(64)}
+	vrt.Assert(h.open(opts...) == nil, "fc/open-no-error")
+	a, b := vUniverse[0], vUniverse[1]
+	h.put(a, []byte{1})
+	h.forceRotation()
+	h.put(b, []byte{1})
+	h.forceRotation()
+	// a third memstore is rotated out, its flush is pending
+	if vrt.Choose("third", 2) == 0 {
+		h.put(a, []byte{2})
+	} else {
+		h.del(a)
+	}
+	if !vrt.Symbolic() {
+		h.enableGate()
+	}
+	h.db.rwLock.Lock()
+	err := h.db.rotateWalAndFlushMemstore()
+	h.db.rwLock.Unlock()
+	vrt.Assert(err == nil, "fc/rotation-no-error")
+	h.db.compactedMaxSizeBytes = math.MaxUint64
+	h.db.compactionFileThreshold = 1
+	if vrt.Symbolic() {
+		n := 0
+		vrt.OnSync(func(kind string) {
+			if h.pending == nil || !vrt.MutexFree(h.db.sstableManager.managerLock) {
+				return
+			}
+			n++
+			if vrt.Choose(vrt.K("flush-at", n), 2) == 1 {
+				vrt.Reach("fc/flush-completes-inside-the-compaction-cycle")
+				a := *h.pending
+				h.pending = nil
+				vrt.RunAs(1, func() {
+					vrt.Assert(executeFlush(h.db, a) == nil, "fc/flush-no-error")
+				})
+			}
+		})
+		vrt.RunAs(2, func() { h.compactionCycleBody() })
+		vrt.OnSync(func(kind string) {})
+		h.runPending()
+	} else {
+		// natively: compaction cycle first, then the stalled flusher gets its token
+		h.compactionCycleBody()
+		h.flushStepNow()
+	}
+	h.checkReads("fc/reads-after-the-cycle")
+	// the next rotation replaces the rotated-out memstore: only the tables answer for the third memstore now
+	h.put(b, []byte{3})
+	h.forceRotationGated()
+	h.checkReads("fc/reads-after-the-next-rotation")
+	h.close()
+	vrt.Assert(h.open(opts...) == nil, "fc/reopen-no-error")
+	h.checkReads("fc/reads-after-restart")
+	h.close()
+	vrt.TraceBool("done", true)
+	vrt.Reach("fc/end")
+}
+
+// flushStepNow (native, gated): let the stalled flusher write its table and wait until it is idle again.
+func (h *vDB) flushStepNow() {
+	if h.gate == nil {
+		return
+	}
+	deadline := time.Now().Add(30 * time.Second)
+	for time.Now().Before(deadline) {
+		if vFlusherStalled() {
+			h.gate <- struct{}{}
+		}
+		time.Sleep(200 * time.Microsecond)
+		if !vFlusherStalled() && vFlusherSettled() {
+			return
+		}
+	}
+}
+
+// forceRotationGated: forceRotation that also works with the native gate in place.
+func (h *vDB) forceRotationGated() {
+	if h.gate == nil {
+		h.forceRotation()
+		return
+	}
+	h.gateStores()
+	h.call(func() {
+		h.db.rwLock.Lock()
+		err := h.db.rotateWalAndFlushMemstore()
+		h.db.rwLock.Unlock()
+		vrt.Assert(err == nil, "db/rotation-no-error")
+	})
+	h.flushStepNow()
+}
